@@ -110,6 +110,10 @@ pub trait Prop: Sync {
     fn run_timeout_s(&self) -> u64 {
         300
     }
+    /// address-space cap of a worker process (only where a runaway execution is a plausible failure)
+    fn worker_mem_limit_gb(&self) -> Option<u64> {
+        None
+    }
     /// whether a cross-process observation mismatch is a violation of the property itself
     fn nondeterminism_is_violation(&self) -> bool {
         false
